@@ -424,3 +424,317 @@ func (g *treeGen) revStack(depth int) Node {
 }
 
 func timeAfter(sec int) <-chan time.Time { return time.After(time.Duration(sec) * time.Second) }
+
+// ---- codec ------------------------------------------------------------------------
+
+func goTypeLeaf(x any) Node { return Node{"t": "leaf", "ty": fmt.Sprintf("%T", x), "v": []string{}} }
+
+// ProjectStruct maps a real value to the Struct record of spec/Codec.tla.
+func ProjectStruct(x any) Node {
+	if x == nil {
+		return Node{"t": "nil"}
+	}
+	if rv := reflect.ValueOf(x); rv.Kind() == reflect.Ptr && rv.IsNil() {
+		return goTypeLeaf(x) // typed nil pointer: never call methods on it
+	}
+	if s, ok := stackage.ConvertStack(x); ok {
+		d := stackage.VerifDump(s)
+		kids := []any{}
+		if sl, ok := d["slots"].([]any); ok {
+			for _, e := range sl {
+				kids = append(kids, ProjectStruct(e))
+			}
+		}
+		sh := ProjectShape(s)
+		return Node{"t": "stk", "k": sh["k"], "e": kids}
+	}
+	if c, ok := stackage.ConvertCondition(x); ok {
+		return Node{"t": "cnd", "kw": Tokenize(c.Keyword()), "op": opID(c.Operator()), "ex": ProjectStruct(c.Expression())}
+	}
+	switch tv := x.(type) {
+	case string:
+		return Node{"t": "leaf", "ty": "str", "v": Tokenize(tv)}
+	case int:
+		return Node{"t": "leaf", "ty": "int", "v": Tokenize(strconv.Itoa(tv))}
+	case bool:
+		return Node{"t": "leaf", "ty": "bool", "v": Tokenize(strconv.FormatBool(tv))}
+	case []any:
+		return ProjectU(tv)
+	}
+	if op, ok := x.(stackage.Operator); ok {
+		return Node{"t": "op", "id": opID(op)}
+	}
+	return goTypeLeaf(x)
+}
+
+// ProjectU maps the []any produced by Unmarshal to a U-value.
+func ProjectU(x any) Node {
+	switch tv := x.(type) {
+	case []any:
+		es := []any{}
+		for _, e := range tv {
+			es = append(es, ProjectU(e))
+		}
+		return Node{"t": "seq", "e": es}
+	case nil:
+		return Node{"t": "nil"}
+	case string, int, bool:
+		return ProjectStruct(tv)
+	}
+	if rv := reflect.ValueOf(x); rv.Kind() == reflect.Ptr && rv.IsNil() {
+		return Node{"t": "obj", "o": goTypeLeaf(x)}
+	}
+	if op, ok := x.(stackage.Operator); ok {
+		return Node{"t": "op", "id": opID(op)}
+	}
+	if _, ok := stackage.ConvertCondition(x); ok {
+		return Node{"t": "obj", "o": ProjectStruct(x)}
+	}
+	if _, ok := stackage.ConvertStack(x); ok {
+		return Node{"t": "obj", "o": ProjectStruct(x)}
+	}
+	return Node{"t": "obj", "o": goTypeLeaf(x)}
+}
+
+// structToTree turns a Struct record back into a buildable tree node (default options)
+func structToTree(n Node) Node {
+	switch nStr(n, "t") {
+	case "stk":
+		kids := []any{}
+		for _, k := range nKids(n, "e") {
+			kids = append(kids, structToTree(k))
+		}
+		return Node{"t": "stk", "k": nStr(n, "k"), "form": "native", "sym": []any{}, "delim": []any{}, "enc": []any{}, "e": kids}
+	case "cnd":
+		ex, _ := n["ex"].(map[string]any)
+		return Node{"t": "cnd", "form": "native", "kw": n["kw"], "op": nStr(n, "op"), "ex": structToTree(ex), "enc": []any{}}
+	}
+	return n
+}
+
+// BuildU builds the Go value for a U-value (junk input of Marshal).
+func BuildU(u Node) any {
+	switch nStr(u, "t") {
+	case "seq":
+		out := []any{}
+		for _, e := range nKids(u, "e") {
+			out = append(out, BuildU(e))
+		}
+		return out
+	case "nil":
+		return nil
+	case "leaf":
+		return BuildNode(u)
+	case "op":
+		if nStr(u, "id") == "nilop" {
+			var op stackage.Operator
+			return op
+		}
+		return ConcOp(nStr(u, "id"))
+	case "obj":
+		o, _ := u["o"].(map[string]any)
+		if nStr(o, "t") == "leaf" {
+			switch nStr(o, "ty") {
+			case "*int":
+				var p *int
+				return p
+			case "*stackage.Stack":
+				var p *stackage.Stack
+				return p
+			case "*stackage.Condition":
+				var p *stackage.Condition
+				return p
+			case "*stackage.ComparisonOperator":
+				var p *stackage.ComparisonOperator
+				return p
+			case "stackage.Stack":
+				return stackage.Stack{}
+			case "stackage.Condition":
+				return stackage.Condition{}
+			}
+			return BuildNode(o)
+		}
+		return BuildNode(structToTree(o))
+	}
+	return nil
+}
+
+func eqFoldLabels(a, b any) bool {
+	// deep equality of two Unmarshal results, labels (first string of each slice) compared case-insensitively
+	as, aok := a.([]any)
+	bs, bok := b.([]any)
+	if aok != bok {
+		return false
+	}
+	if !aok {
+		if _, isC := stackage.ConvertCondition(a); isC {
+			ca, _ := stackage.ConvertCondition(a)
+			cb, ok := stackage.ConvertCondition(b)
+			return ok && ca.IsEqual(cb) == nil
+		}
+		return reflect.DeepEqual(a, b)
+	}
+	if len(as) != len(bs) {
+		return false
+	}
+	for i := range as {
+		if i == 0 {
+			sa, ok1 := as[0].(string)
+			sb, ok2 := bs[0].(string)
+			if ok1 && ok2 {
+				if !strings.EqualFold(sa, sb) {
+					return false
+				}
+				continue
+			}
+		}
+		if !eqFoldLabels(as[i], bs[i]) {
+			return false
+		}
+	}
+	return true
+}
+
+func usable(s stackage.Stack) (msg string) {
+	defer func() {
+		if r := recover(); r != nil {
+			msg = "PANIC after Marshal: " + fmt.Sprint(r)
+		}
+	}()
+	_ = s.String()
+	_, _ = s.Unmarshal()
+	_ = s.IsEqual(s)
+	_ = s.IsEqual(stackage.And().Push("zz"))
+	return "ok"
+}
+
+func init() {
+	evaluators["codec"] = func(in Node, arg any) any {
+		a, _ := arg.(map[string]any)
+		form, _ := a["form"].(string)
+		if a["mode"] == "roundtrip" {
+			orig, _ := stackage.ConvertStack(BuildNode(in))
+			u1, err := orig.Unmarshal()
+			out := map[string]any{"total": "ok", "u1": ProjectU(u1), "err": "nil", "u2eq": "false", "iseq": "*"}
+			if err != nil {
+				out["err"] = "unmarshal error"
+				return out
+			}
+			var rec stackage.Stack
+			var merr error
+			if form == "single" {
+				merr = rec.Marshal(u1)
+			} else {
+				merr = rec.Marshal(u1...)
+			}
+			if merr != nil {
+				out["err"] = "err"
+			}
+			out["struct"] = ProjectStruct(rec)
+			u2, _ := rec.Unmarshal()
+			out["u2eq"] = b2s(eqFoldLabels(u1, u2))
+			if a["cmpeq"] == true {
+				out["iseq"] = []string{b2s(orig.IsEqual(rec) == nil), b2s(rec.IsEqual(orig) == nil)}
+			}
+			return out
+		}
+		// mode marshal: junk into a zero or an initialised receiver
+		u := BuildU(in)
+		var rec stackage.Stack
+		if a["recv"] == "live" {
+			rec = stackage.And().Push("r0")
+		}
+		var merr error
+		us, isSeq := u.([]any)
+		if form == "single" || !isSeq {
+			merr = rec.Marshal(u)
+		} else {
+			merr = rec.Marshal(us...)
+		}
+		out := map[string]any{"total": "ok", "err": "nil", "init": b2s(rec.IsInit()), "contract": "ok"}
+		if merr != nil {
+			out["err"] = "err"
+		}
+		if merr == nil && !rec.IsInit() {
+			out["contract"] = "neither an error nor an initialised receiver"
+		}
+		if rec.IsInit() {
+			out["total"] = usable(rec)
+			out["struct"] = ProjectStruct(rec)
+		} else {
+			out["struct"] = Node{"t": "nil"}
+		}
+		return out
+	}
+}
+
+func hasFoldOrCap(n Node) bool {
+	switch nStr(n, "t") {
+	case "stk":
+		if nBool(n, "fold") {
+			return true
+		}
+		for _, k := range nKids(n, "e") {
+			if hasFoldOrCap(k) {
+				return true
+			}
+		}
+	case "cnd":
+		if ex, ok := n["ex"].(map[string]any); ok {
+			return hasFoldOrCap(ex)
+		}
+	}
+	return false
+}
+
+func (g *treeGen) junk(depth int) Node {
+	lbls := [][]string{{"A", "N", "D"}, {"o", "r"}, {"N", "o", "T"}, {"L", "I", "S", "T"}, {"b", "a", "s", "i", "c"},
+		{"C", "O", "N", "D", "I", "T", "I", "O", "N"}, {"c", "o", "n", "d", "i", "t", "i", "o", "n"}, {"j", "u", "n", "k"}, {}}
+	val := func() Node {
+		switch g.rng.Intn(14) {
+		case 0:
+			return Node{"t": "nil"}
+		case 1:
+			return Node{"t": "leaf", "ty": "int", "v": []any{"7"}}
+		case 2:
+			return Node{"t": "op", "id": []string{"Eq", "Ne", "user", "op0", "emptytext", "nilop"}[g.rng.Intn(6)]}
+		case 3:
+			return Node{"t": "obj", "o": Node{"t": "leaf", "ty": "*int", "v": []any{}}}
+		case 4:
+			return Node{"t": "obj", "o": Node{"t": "leaf", "ty": []string{"stackage.Stack", "stackage.Condition"}[g.rng.Intn(2)], "v": []any{}}}
+		case 5:
+			return Node{"t": "obj", "o": Node{"t": "stk", "k": "OR", "e": []any{Node{"t": "leaf", "ty": "str", "v": []any{"x"}}}}}
+		case 6:
+			return Node{"t": "obj", "o": Node{"t": "cnd", "kw": []any{"k"}, "op": "Eq", "ex": Node{"t": "leaf", "ty": "str", "v": []any{"v"}}}}
+		case 7, 8:
+			return Node{"t": "leaf", "ty": "str", "v": toksAny(lbls[g.rng.Intn(len(lbls))])}
+		}
+		return Node{"t": "leaf", "ty": "str", "v": g.toks(0, 3, []string{"a", "b", "k"})}
+	}
+	n := g.rng.Intn(5)
+	es := []any{}
+	for i := 0; i < n; i++ {
+		if depth < g.maxDepth && g.rng.Intn(3) == 0 {
+			es = append(es, g.junk(depth+1))
+		} else {
+			es = append(es, val())
+		}
+	}
+	if n > 0 && g.rng.Intn(3) != 0 {
+		es[0] = Node{"t": "leaf", "ty": "str", "v": toksAny(lbls[g.rng.Intn(len(lbls))])}
+	}
+	return Node{"t": "seq", "e": es}
+}
+
+func init() {
+	treeGenerators["codec"] = func(g *treeGen) (Node, any) {
+		form := []string{"variadic", "single"}[g.rng.Intn(2)]
+		if g.rng.Intn(2) == 0 {
+			return g.junk(0), map[string]any{"mode": "marshal", "form": form, "recv": []string{"zero", "live"}[g.rng.Intn(2)]}
+		}
+		g.nils, g.validConds = true, true
+		s := g.stack(0)
+		s["enc"], s["sym"], s["delim"] = []any{}, []any{}, []any{}
+		return s, map[string]any{"mode": "roundtrip", "form": form, "cmpeq": !hasFoldOrCap(s)}
+	}
+}
